@@ -12,6 +12,7 @@ mod c12;
 mod c14;
 mod c13;
 mod fp;
+mod grp;
 
 use mccore::{Bad, Meta, Run, Tier};
 use serde_json::Value;
@@ -41,7 +42,11 @@ type ReplayFn = fn(&Value) -> Result<(), Bad>;
 
 fn table(id: &str) -> Option<(RunFn, MetaFn)> {
     Some(match id {
+        "C04" => (grp::c04_run, grp::c04_meta),
+        "C05" => (grp::c05_run, grp::c05_meta),
         "C06" => (c06::run, c06::meta),
+        "C10" => (grp::c10_run, grp::c10_meta),
+        "C15" => (grp::c15_run, grp::c15_meta),
         "C07" => (c07::run, c07::meta),
         "C12" => (c12::run, c12::meta),
         "C13" => (c13::run, c13::meta),
@@ -52,6 +57,7 @@ fn table(id: &str) -> Option<(RunFn, MetaFn)> {
 fn replay_table(op: &str) -> Option<ReplayFn> {
     let pre = op.split('.').next().unwrap_or("");
     Some(match pre {
+        "c04" | "c05" | "c10" | "c15" => grp::replay,
         "c06" => c06::replay,
         "c07" => c07::replay,
         "c12" => c12::replay,
